@@ -4,6 +4,8 @@
 import Driver.EngReader
 import Driver.EngComb
 import Driver.EngScan
+import Driver.EngWriter
+import Driver.EngRenumber
 
 open Driver
 
@@ -12,6 +14,8 @@ def runLine (line : String) : String × String :=
   | some "reader" => runReaderCase line
   | some "comb" => runCombCase line
   | some "scan" => runScanCase line
+  | some "writer" => runWriterCase line
+  | some "renumber" => runRenumberCase line
   | _ => ("unknown-engine", "")
 
 partial def loop (h : IO.FS.Stream) (out : IO.FS.Stream) : IO Unit := do
